@@ -283,7 +283,7 @@ Lemma or_insert_with_vacant_exact k (f : T -> option V * T) v s' (w : world) :
      (fun i w' => WF (self w') /\ cap (self w') = cap (self w) /\
                   elems (self w') = elems (self w) ++ [(k, v)] /\ i = length (elems (self w)) /\
                   logged w w' [EvCall 2] /\ len (self w) < cap (self w))
-     (fun w' => self w' = self w /\ logged w w' ([EvCall 2] ++ ev_drops (idK E k ++ idV E v)) /\
+     (fun w' => self w' = self w /\ logged w w' ([EvCall 2] ++ ev_drops (idV E v ++ idK E k)) /\
                 len (self w) = cap (self w)) w.
 Proof.
   intros Hw Hf Hfv. apply wp_bind.
@@ -367,7 +367,7 @@ Lemma or_insert_with_key_vacant_exact k (f : K -> T -> option V * T) v s' (w : w
      (fun i w' => WF (self w') /\ cap (self w') = cap (self w) /\
                   elems (self w') = elems (self w) ++ [(k, v)] /\ i = length (elems (self w)) /\
                   logged w w' [EvCall 2] /\ len (self w) < cap (self w))
-     (fun w' => self w' = self w /\ logged w w' ([EvCall 2] ++ ev_drops (idK E k ++ idV E v)) /\
+     (fun w' => self w' = self w /\ logged w w' ([EvCall 2] ++ ev_drops (idV E v ++ idK E k)) /\
                 len (self w) = cap (self w)) w.
 Proof.
   intros Hw Hf Hfv. apply wp_bind.
@@ -803,7 +803,7 @@ Lemma and_modify_chain_or_insert k fs gs v (w : world) :
         | None => i = length (elems (self w)) /\
                   elems (self w') = elems (self w) ++ [(k, v)] /\ log w' = log w
         end)
-     (fun w' => self w' = self w /\ logged w w' (ev_drops (idK E k ++ idV E v)) /\
+     (fun w' => self w' = self w /\ logged w w' (ev_drops (idV E v ++ idK E k)) /\
                 find_idx ck (ck k) (elems (self w)) = None /\ len (self w) = cap (self w)) w.
 Proof.
   intros Hw HF. apply wp_bind.
@@ -1069,7 +1069,7 @@ Lemma chain0_spec k v (w : mworld) :
                   Spec.elems (self w') = Spec.elems (self w) ++ [(k, v)] /\ log w' = log w /\
                   len (self w) < cap (self w)
         end)
-     (fun w' => self w' = self w /\ logged w w' [EvDrop (kid k); EvDrop (vid v)] /\
+     (fun w' => self w' = self w /\ logged w w' [EvDrop (vid v); EvDrop (kid k)] /\
                 find_idx kcls (kcls k) (Spec.elems (self w)) = None /\ len (self w) = cap (self w)) w.
 Proof.
   intros Hw.
@@ -1104,7 +1104,7 @@ Definition chain_with_post k v (w : mworld) (r : list N) (w' : mworld) : Prop :=
             len (self w) < cap (self w)
   end.
 Definition chain_with_panic k v (w w' : mworld) : Prop :=
-  self w' = self w /\ logged w w' [EvCall 2; EvDrop (kid k); EvDrop (vid v)] /\
+  self w' = self w /\ logged w w' [EvCall 2; EvDrop (vid v); EvDrop (kid k)] /\
   find_idx kcls (kcls k) (Spec.elems (self w)) = None /\ len (self w) = cap (self w).
 
 Lemma chain1_spec k v (w : mworld) :
@@ -1205,7 +1205,7 @@ Lemma chain4_spec k v (w : mworld) :
                   Spec.elems (self w') = Spec.elems (self w) ++ [(k, v)] /\ log w' = log w /\
                   len (self w) < cap (self w)
         end)
-     (fun w' => self w' = self w /\ logged w w' [EvDrop (kid k); EvDrop (vid v)] /\
+     (fun w' => self w' = self w /\ logged w w' [EvDrop (vid v); EvDrop (kid k)] /\
                 find_idx kcls (kcls k) (Spec.elems (self w)) = None /\ len (self w) = cap (self w)) w.
 Proof.
   intros Hw.
@@ -1219,7 +1219,7 @@ Proof.
         | None => i = length (Spec.elems (self w)) /\
                   Spec.elems (self w') = Spec.elems (self w) ++ [(k, v)] /\ log w' = log w
         end)
-     (fun w' => self w' = self w /\ logged w w' [EvDrop (kid k); EvDrop (vid v)] /\
+     (fun w' => self w' = self w /\ logged w w' [EvDrop (vid v); EvDrop (kid k)] /\
                 find_idx kcls (kcls k) (Spec.elems (self w)) = None /\ len (self w) = cap (self w)) w).
   { exact (and_modify_chain_or_insert Em debug kcls qcls HLm k [modf_add sc] _ v w Hw
              (Forall2_cons _ _ modf_add_pure (Forall2_nil _))). }
@@ -1241,7 +1241,7 @@ Proof.
         | None => i = length (Spec.elems (self w)) /\
                   Spec.elems (self w') = Spec.elems (self w) ++ [(k, v)] /\ log w' = log w
         end)
-     (fun w' => self w' = self w /\ logged w w' [EvDrop (kid k); EvDrop (vid v)] /\
+     (fun w' => self w' = self w /\ logged w w' [EvDrop (vid v); EvDrop (kid k)] /\
                 find_idx kcls (kcls k) (Spec.elems (self w)) = None /\ len (self w) = cap (self w)) w).
   { unfold wp. rewrite Heq. exact Hch. }
   clear Hch Heq.
@@ -1450,7 +1450,7 @@ Lemma chain8_spec k v (w : mworld) :
                   Spec.elems (self w') = Spec.elems (self w) ++ [(k, v)] /\ log w' = log w /\
                   len (self w) < cap (self w)
         end)
-     (fun w' => self w' = self w /\ logged w w' [EvDrop (kid k); EvDrop (vid v)] /\
+     (fun w' => self w' = self w /\ logged w w' [EvDrop (vid v); EvDrop (kid k)] /\
                 find_idx kcls (kcls k) (Spec.elems (self w)) = None /\ len (self w) = cap (self w)) w.
 Proof.
   intros Hw.
@@ -1540,7 +1540,7 @@ Lemma chain11_spec k v (w : mworld) :
                   Spec.elems (self w') = Spec.elems (self w) ++ [(k, v)] /\ log w' = log w /\
                   len (self w) < cap (self w)
         end)
-     (fun w' => self w' = self w /\ logged w w' [EvDrop (kid k); EvDrop (vid v)] /\
+     (fun w' => self w' = self w /\ logged w w' [EvDrop (vid v); EvDrop (kid k)] /\
                 find_idx kcls (kcls k) (Spec.elems (self w)) = None /\ len (self w) = cap (self w)) w.
 Proof.
   intros Hw.
